@@ -63,7 +63,9 @@ CLAIMED = {
             "code (T1 machine; MPMC waiter queue atomic by C13), for all initial values >= 0, any number of fibers, programs and schedules: no "
             "over-admission (succeeded <= init + posts begun), exact counter equation, trywait never blocks and succeeds only by its own CAS from a "
             "positive value, a blocked waiter with units available implies a post in progress, value at quiescence. Tied to /repo on every run by "
-            "per-access trace comparison of the instrumented fiber_semaphore.c + fiber_manager.c + fiber.c with the extracted model.",
+            "per-access trace comparison of the instrumented fiber_semaphore.c + fiber_manager.c + fiber.c with the extracted model; the MPMC waiter "
+            "queue (include/mpmc_fifo.h over hazard pointers), which the semaphore model takes as atomic, is discharged as a layer on every run "
+            "(its theorems, its own lock-step correspondence and store-buffer pass).",
             "Trusts: Coq kernel; extraction + driver; rt/rt.c, rt/t1.c (context switch, run queues, event layer replaced: given C01 and C02); MPMC queue "
             "operations atomic (C13); SC interleaving; -O0 build.",
             "DESIGN.md 6 C06, 12.1"),
@@ -85,7 +87,9 @@ CLAIMED = {
             "(waiters, raised) specification, every node is in exactly one place, a raise releases exactly one waiter or is remembered. Tied to /repo on "
             "every run by per-access trace comparison (the cmpxchg16b is a scheduling point through the LIBFIBER_VERIF hook) incl. ABA recycle schedules.",
             "Trusts: Coq kernel; extraction + driver; rt/rt.c + DCAS hook; SC interleaving; -O0 build; fewer than 2^64 updates between a counter load "
-            "and its DCAS; multi-signal waits run on a thread-with-sleep abstraction (given C01/C02).",
+            "and its DCAS; in the lock-step model multi-signal waits run on a thread-with-sleep abstraction (given C01/C02); putting the waiter to "
+            "sleep, waking it and giving its queue node back with REAL fibers is judged on the whole runtime (T2 layer: wait must not return without "
+            "a raise; every waiter resumed once, from a saved context).",
             "DESIGN.md 6 C20"),
     "C08": ("translator (shim shapes regenerated from fiber_io.c) + Coq theorems over the generated table and a model of the retry loops with the "
             "kernel as an oracle + differential run of the real shims against libc + model replay on recorded real-call results",
@@ -255,7 +259,9 @@ CLAIMED = {
             "the originally pinned code (schedule() pushing on the deque being drained) is kept as a refuted regression incl. the unbounded (for every "
             "k) starvation. Tied to /repo by per-access lock-step of fiber_scheduler_wsd.c + work_stealing_deque.c (1-4 kernel threads) and a "
             "bypass/conservation monitor on the real scheduler code.",
-            "Queue lengths beyond the 32 fibers of the model (thresholds and caps a change may introduce) are exercised monitor-only (BIG cases: up to "
+            "The scheduler as the RUNTIME drives it (fiber_manager_yield, the wake-up paths of the blocking primitives), which the "
+            "harness reproduces by hand, is judged on the whole runtime with one kernel thread (bypass oracle on schedule/hand-out events, bound "
+            "2(n-1)). Queue lengths beyond the 32 fibers of the model (thresholds and caps a change may introduce) are exercised monitor-only (BIG cases: up to "
             "1030 ready fibers, run queues started with 4-entry arrays). Trusts: Coq kernel; extraction + driver; rt/rt.c; deque operations atomic (C02 deque theorems); rt/h_sched.c reproduces the "
             "scheduler-visible actions of fiber_manager_yield/switch_to/do_maintenance by hand (the manager itself is checked on T1/T2).",
             "DESIGN.md 6 C10, 12.3"),
